@@ -22,7 +22,7 @@
    this order through the cache starting from c; a failed evaluation leaves the cache unchanged.
    [clock_twins p q]: p and q are equal in every field except the half-move clock. *)
 From Coq Require Import NArith ZArith List Bool.
-From Clemens Require Import Base.Res Pos.Position Eval.Eval Eval.CacheProofs Eval.CacheInst.
+From Clemens Require Import Base.Res Pos.Position Pos.ZobristProofs Eval.Eval Eval.CacheProofs Eval.CacheInst Eval.CacheKeys.
 Import ListNotations.
 Open Scope N_scope.
 
@@ -145,6 +145,22 @@ Theorem C16_unrepaired_refuted :
     run_unrepaired c16_econsts c [q; p] <> [eval_raw c16_econsts q; eval_raw c16_econsts p].
 Proof. exact unrepaired_refuted. Qed.
 Print Assumptions C16_unrepaired_refuted.
+
+(* What the key table of the Go build decides about the no-collision hypothesis: all 781 Zobrist keys are
+   non-zero and pairwise distinct, so no two positions that differ in exactly one component (one square's
+   occupant, side to move, castling rights, en-passant file) share a hash - the collisions a defective key
+   table would produce first.  Re-checked by the kernel whenever the generated keys change. *)
+Theorem C16_keys_injective : forall i j a b,
+  i <> j -> nth_error (all_keys c16_keys) i = Some a -> nth_error (all_keys c16_keys) j = Some b ->
+  a <> b /\ a <> 0.
+Proof. exact c16_keys_injective. Qed.
+Print Assumptions C16_keys_injective.
+
+Theorem C16_one_component_no_collision : forall p1 p2,
+  pos_wf p1 -> pos_wf p2 -> differ_in_one_component p1 p2 ->
+  scratch_hash c16_keys p1 <> scratch_hash c16_keys p2.
+Proof. exact c16_one_component_no_collision. Qed.
+Print Assumptions C16_one_component_no_collision.
 
 (* Non-vacuity.  A universe of six concrete positions of the Go build: the clock twins above (equal
    hashes), rights-only twins r3k2r/8/8/8/8/8/4P3/R3K2R w KQkq|- - 0 1 and en-passant-only twins
